@@ -1,18 +1,40 @@
 //! C03: offset, DST flag and abbreviation for an instant match the TZ data.
 //! E1 over all zones: every transition of every zone (recorded and rule
 //! generated for every year to 9999) probed at T-1s, T-0.5s, T-1ns, T, T+1ns,
-//! T+0.5s, T+1s plus one interior point per piece, against R-tz.
+//! T+0.5s, T+1s plus one interior point per piece, plus both sides of every
+//! UTC year boundary in the rule-governed part (jiff evaluates rules per UTC
+//! year), against R-tz.
+//!
+//! Entry points, all at every probe: `TimeZone::{to_offset_info (offset, dst,
+//! abbreviation), to_offset, to_datetime}`, `Zoned::new` and
+//! `Timestamp::to_zoned` with `Zoned::{offset, datetime, timestamp}`.
+//! `Timestamp::in_tz` (database route) is exercised on a representative set of
+//! probes per installed zone (section `db-route`; that all ways of loading a
+//! zone agree is C18).
 
-use jiff::tz::TimeZone;
+use jiff::tz::{Dst, TimeZone};
 use jiff::{Timestamp, Zoned};
 use rayon::prelude::*;
 use refmodel::tz as rtz;
 use serde_json::json;
+use std::collections::BTreeSet;
 use std::sync::atomic::{AtomicU64, Ordering};
 use vf::zones::{self, Pair, ZoneSrc};
 use vf::{guard, panic_sig, Report};
 
+#[path = "c03/hb.rs"]
+mod hb;
+
 const NS: i128 = 1_000_000_000;
+
+#[derive(Clone, Copy, PartialEq)]
+enum Years {
+    /// every rule year (TZif footers: to 9999; POSIX strings: -9999..=9999)
+    All,
+    /// one 400-year Gregorian cycle plus the range edges, the years around 0
+    /// and a few pre-1970 years
+    Cycle,
+}
 
 fn main() {
     let r = Report::from_args("C03");
@@ -22,15 +44,14 @@ fn main() {
     corpus.push(("sys", zones::sys(true)));
     corpus.push(("synth-slim", zones::synth("slim")));
     corpus.push(("synth-fat", zones::synth("fat")));
+    // all bundled zones (slim data: this is where in-memory fattening from the
+    // footer actually adds transitions)
+    corpus.push(("bundled", zones::bundled()));
     if r.thorough() {
-        corpus.push(("bundled", zones::bundled()));
         corpus.push(("tzdata-slim", zones::tzdata("slim")));
         corpus.push(("tzdata-fat", zones::tzdata("fat")));
-    } else {
-        // quick: all bundled zones too (slim data: this is where in-memory
-        // fattening from the footer actually adds transitions)
-        corpus.push(("bundled", zones::bundled()));
     }
+    corpus.push(("handbuilt", hb::handbuilt()));
 
     for (tag, zs) in &corpus {
         r.section(&format!("tzif:{}", tag), || {
@@ -39,23 +60,18 @@ fn main() {
                 let pair = match zones::load_pair(z) {
                     Ok(p) => p,
                     Err(e) => {
-                        // every file of the corpus is well-formed (written by zic)
-                        let crosses = rtz::zone_from_tzif(&z.bytes).map(|m| m.pieces.iter().any(|p| p.crosses_year)).unwrap_or(false);
-                        let sig = if crosses && e.starts_with("jiff:") {
-                            "TimeZone::tzif/rejects-wellformed:footer-rule-transition-outside-its-utc-year"
-                        } else {
-                            "TimeZone::tzif/rejects-wellformed-or-model-fails"
-                        };
-                        r.viol(&sec, sig, format!("{}:{}", z.origin, z.name), e);
+                        // every file of the corpus is well-formed (written by zic or by hb::build)
+                        r.viol(&sec, load_failure_sig(z, &e), format!("{}:{}", z.origin, z.name), e);
                         return;
                     }
                 };
-                let n = check_zone(&r, &sec, &pair, true);
+                let n = check_zone(&r, &sec, &pair, Years::All);
                 probes.fetch_add(n, Ordering::Relaxed);
                 r.add_states(1);
             });
         });
     }
+    r.require(r.get_count("handbuilt_zones_loaded") >= 10 || r.only_section.is_some(), "hand-built TZif files load on both sides");
 
     r.section("posix", || {
         let level = if r.quick() { 0 } else { 2 };
@@ -70,11 +86,37 @@ fn main() {
                 }
             };
             // one 400-year Gregorian cycle plus the first and last years
-            let n = check_zone(&r, "posix", &pair, false);
+            let n = check_zone(&r, "posix", &pair, Years::Cycle);
             probes.fetch_add(n, Ordering::Relaxed);
             r.add_states(1);
         });
     });
+
+    // every rule year -9999..=9999: rule shapes x std offsets (53 strings);
+    // thorough adds every 4th string of the level-0 product alphabet
+    r.section("posix-every-year", || {
+        let mut strs = hb::posix_every_year();
+        if r.thorough() {
+            strs.extend(zones::posix_alphabet(0).into_iter().step_by(4));
+        }
+        r.count("posix_strings_every_year", strs.len() as u64);
+        strs.par_iter().for_each(|s| {
+            let pair = match zones::load_posix_pair(s) {
+                Ok(p) => p,
+                Err(e) => {
+                    r.viol("posix-every-year", "TimeZone::posix/rejects-wellformed-or-model-fails", s.clone(), e);
+                    return;
+                }
+            };
+            let n = check_zone(&r, "posix-every-year", &pair, Years::All);
+            probes.fetch_add(n, Ordering::Relaxed);
+            r.count("probes_every_year_sweep", n);
+            r.add_states(1);
+        });
+    });
+
+    r.section("fixed", || fixed_offsets(&r));
+    r.section("db-route", || db_route(&r));
 
     if r.thorough() {
         r.section("zdump", || zdump_binding(&r));
@@ -82,31 +124,67 @@ fn main() {
 
     let p = probes.load(Ordering::Relaxed);
     r.count("probes", p);
-    r.require(p > 1_000_000 || r.only_section.is_some(), "more than 1M instants probed");
-    r.require(r.get_count("probes_pre1970_fraction") > 0 || r.only_section.is_some(), "negative fractional probes exist");
-    r.require(r.get_count("probes_rule_generated") > 0 || r.only_section.is_some(), "rule generated transitions probed");
+    let full = r.only_section.is_none();
+    r.require(p > 1_000_000 || !full, "more than 1M instants probed");
+    r.require(r.get_count("probes_pre1970_fraction") > 0 || !full, "negative fractional probes exist");
+    r.require(r.get_count("probes_rule_generated") > 0 || !full, "rule generated transitions probed");
+    r.require(r.get_count("probes_year_boundary") > 0 || !full, "UTC year boundaries probed");
+    r.require(r.get_count("probes_negative_rule_years") > 0 || !full, "rule transitions in negative years probed");
+    r.require(r.get_count("zoned_values_checked") == p || !full, "Zoned::new and Timestamp::to_zoned checked at every probe");
+    r.require(r.get_count("db_route_zones") > 300 || !full, "Timestamp::in_tz exercised for the installed zones");
     r.finish();
 }
 
+/// Signature for a well-formed file that one side refuses. Attributed to F7
+/// only when jiff's footer consistency check is what failed *and* the footer
+/// generates, within the years jiff materialises, a transition that leaves its
+/// UTC year.
+fn load_failure_sig(z: &ZoneSrc, e: &str) -> &'static str {
+    if e.starts_with("jiff:") && e.contains("expected last transition to have") {
+        if let Ok(m) = rtz::zone_from_tzif(&z.bytes) {
+            // the check runs at the last transition of the fattened table:
+            // some rule transition up to 2037 must leave its UTC year
+            if m.n_recorded > 0 && m.pieces.iter().any(|p| !p.recorded && p.crosses_year && p.rule_year <= hb::FATTEN_LAST_RULE_YEAR) {
+                return "TimeZone::tzif/rejects-wellformed:footer-rule-transition-outside-its-utc-year";
+            }
+        }
+    }
+    "TimeZone::tzif/rejects-wellformed-or-model-fails"
+}
+
+fn year_filter(years: Years) -> Box<dyn Fn(i64) -> bool> {
+    match years {
+        Years::All => Box::new(|_| true),
+        Years::Cycle => Box::new(|y| (1968..2370).contains(&y) || y <= -9996 || y >= 9996 || (1900..1903).contains(&y) || (-2..=2).contains(&y)),
+    }
+}
+
 /// Probe one zone. Returns the number of instants probed.
-fn check_zone(r: &Report, sec: &str, p: &Pair, all_years: bool) -> u64 {
-    let filter: Box<dyn Fn(i64) -> bool> = if all_years {
-        Box::new(|_| true)
-    } else {
-        Box::new(|y| (1970..2370).contains(&y) || y <= -9996 || y >= 9996 || (1900..1903).contains(&y))
-    };
+fn check_zone(r: &Report, sec: &str, p: &Pair, years: Years) -> u64 {
+    let filter = year_filter(years);
     let ks = zones::probe_pieces(&p.model, &*filter);
     let mut n = 0u64;
     let mut n_frac = 0u64;
     let mut n_rule = 0u64;
-    let mut zoned_budget = 64u32;
+    let mut n_neg = 0u64;
+    let mut n_yb = 0u64;
+    let mut n_zoned = 0u64;
     let min_ns = Timestamp::MIN.as_nanosecond();
     let max_ns = Timestamp::MAX.as_nanosecond();
-    let mut probe = |t_ns: i128, k: usize, near: bool| {
+    let oor = has_out_of_range_transition(&p.model);
+    let tzif = p.origin != "posix";
+    let f7_zone = hb::zone_has_f7_pieces(&p.model);
+    let mut n_unhidden = 0u64;
+    // violations are aggregated per zone and signature (minimal case kept)
+    let mut agg = hb::Agg::new(r);
+    let mut probe = |t_ns: i128| {
         if t_ns < min_ns || t_ns > max_ns {
             return;
         }
         n += 1;
+        if f7_zone && hb::former_f7_utc(&p.model, t_ns) && !hb::f7_utc(&p.model, t_ns, tzif) {
+            n_unhidden += 1;
+        }
         let sec_floor = t_ns.div_euclid(NS) as i64;
         if t_ns < 0 && t_ns.rem_euclid(NS) != 0 {
             n_frac += 1;
@@ -117,20 +195,18 @@ fn check_zone(r: &Report, sec: &str, p: &Pair, all_years: bool) -> u64 {
             let info = p.jiff.to_offset_info(ts);
             let off2 = p.jiff.to_offset(ts);
             let dt = p.jiff.to_datetime(ts);
-            (info.offset().seconds(), info.dst().is_dst(), info.abbreviation().to_string(), off2.seconds(), dt)
+            (info.offset().seconds(), info.dst().is_dst(), info.abbreviation().to_string(), off2.seconds(), dt, info.dst() == Dst::Yes)
         });
         let case = || format!("{}:{} t={}", p.origin, p.name, vf::conv::fmt_ns(t_ns));
+        // input-derived failure class
+        let class = || classify(&p.model, t_ns, oor, tzif);
         match got {
             Err(pn) => r.viol(sec, &format!("to_offset_info/{}", panic_sig(&pn)), case(), pn),
-            Ok((off, dst, abbrev, off2, dt)) => {
-                if off != want.utoff || dst != want.dst || abbrev != want.abbrev {
-                    let class = classify(&p.model, t_ns, k, near);
-                    r.viol(
-                        sec,
-                        &format!("to_offset_info/{}", class),
-                        case(),
-                        format!("jiff ({}, dst={}, {}) model ({}, dst={}, {})", off, dst, abbrev, want.utoff, want.dst, want.abbrev),
-                    );
+            Ok((off, dst, abbrev, off2, dt, dst2)) => {
+                if off != want.utoff || dst != want.dst || abbrev != want.abbrev || dst2 != dst {
+                    agg.add(r, sec, &format!("to_offset_info/{}", class()), case(), || {
+                        format!("jiff ({}, dst={}, {}) model ({}, dst={}, {})", off, dst, abbrev, want.utoff, want.dst, want.abbrev)
+                    });
                 } else {
                     if off2 != off {
                         r.viol(sec, "to_offset/differs-from-to_offset_info", case(), format!("{} vs {}", off2, off));
@@ -142,72 +218,221 @@ fn check_zone(r: &Report, sec: &str, p: &Pair, all_years: bool) -> u64 {
                 }
             }
         }
-        if near && zoned_budget > 0 {
-            zoned_budget -= 1;
-            if let Err(pn) = guard(|| {
-                let z = Zoned::new(ts, p.jiff.clone());
-                if z.offset().seconds() != want.utoff {
-                    let class = classify(&p.model, t_ns, k, near);
-                    r.viol(sec, &format!("Zoned::offset/{}", class), case(), format!("jiff {} model {}", z.offset().seconds(), want.utoff));
+        // Zoned::new and Timestamp::to_zoned at every probe
+        n_zoned += 1;
+        let zg = guard(|| {
+            let z = Zoned::new(ts, p.jiff.clone());
+            let z2 = ts.to_zoned(p.jiff.clone());
+            (z.offset().seconds(), z.datetime(), z.timestamp(), z2.offset().seconds(), z2.datetime(), z2.timestamp())
+        });
+        match zg {
+            Err(pn) => r.viol(sec, &format!("Zoned::new/{}", panic_sig(&pn)), case(), pn),
+            Ok((zoff, zdt, zts, z2off, z2dt, z2ts)) => {
+                let civil = t_ns + want.utoff as i128 * NS;
+                if zoff != want.utoff {
+                    agg.add(r, sec, &format!("Zoned::offset/{}", class()), case(), || format!("jiff {} model {}", zoff, want.utoff));
+                } else if vf::conv::dt_civil_ns(zdt) != civil {
+                    r.viol(sec, "Zoned::datetime/not-instant-plus-offset", case(), format!("jiff {} model civil ns {}", zdt, civil));
                 }
-            }) {
-                r.viol(sec, &format!("Zoned::new/{}", panic_sig(&pn)), case(), pn);
+                if zts != ts {
+                    r.viol(sec, "Zoned::timestamp/not-the-instant-given", case(), format!("jiff {} given {}", zts, ts));
+                }
+                if (z2off, z2dt, z2ts) != (zoff, zdt, zts) {
+                    r.viol(
+                        sec,
+                        "Timestamp::to_zoned/differs-from-Zoned::new",
+                        case(),
+                        format!("to_zoned ({}, {}, {}) Zoned::new ({}, {}, {})", z2off, z2dt, z2ts, zoff, zdt, zts),
+                    );
+                }
             }
         }
     };
-    probe(min_ns, 0, false);
-    probe(min_ns + 1, 0, false);
-    probe(max_ns, p.model.pieces.len() - 1, false);
-    probe(max_ns - 1, p.model.pieces.len() - 1, false);
-    probe(0, 0, false);
-    probe(-1, 0, false);
+    probe(min_ns);
+    probe(min_ns + 1);
+    probe(min_ns + NS - 1);
+    probe(min_ns + NS);
+    probe(max_ns);
+    probe(max_ns - 1);
+    probe(max_ns - (NS - 1));
+    probe(max_ns - NS);
+    probe(0);
+    probe(-1);
+    let mut years: BTreeSet<i64> = BTreeSet::new();
     for &k in &ks {
-        let t = p.model.pieces[k].start;
-        if !p.model.pieces[k].recorded {
+        let pc = &p.model.pieces[k];
+        let t = pc.start;
+        if !pc.recorded {
             n_rule += 1;
+            if pc.rule_year < 0 {
+                n_neg += 1;
+            }
+            years.insert(pc.rule_year);
+            years.insert(pc.rule_year + 1);
         }
         for t_ns in zones::instants_around(t) {
-            probe(t_ns, k, true);
+            probe(t_ns);
         }
         // interior point of the piece that starts here
         let end = p.model.piece_end(k).min(zones::TS_MAX_SEC);
         if end > t + 2 {
             let mid = t + (end - t) / 2;
-            probe(mid as i128 * NS + 123_456_789, k, false);
+            probe(mid as i128 * NS + 123_456_789);
         }
     }
+    // both sides of every UTC year boundary in the rule-governed part
+    for y in years {
+        if !(-9999..=10000).contains(&y) {
+            continue;
+        }
+        let y0 = refmodel::cal::days_from_civil(y, 1, 1) as i128 * 86400 * NS;
+        for d in [-NS, -1, 0, 1] {
+            if y0 + d >= min_ns && y0 + d <= max_ns {
+                n_yb += 1;
+            }
+            probe(y0 + d);
+        }
+    }
+    agg.flush(r, sec);
     r.add_transitions(n);
-    r.add_validated(n);
+    r.add_validated(n * 2);
     r.count("probes_pre1970_fraction", n_frac);
     r.count("probes_rule_generated", n_rule);
+    r.count("probes_negative_rule_years", n_neg);
+    r.count("probes_year_boundary", n_yb);
+    r.count("zoned_values_checked", n_zoned);
+    r.count("probes_in_the_former_F7_window_now_outside_the_exact_one", n_unhidden);
+    if p.origin == "handbuilt" {
+        r.count("handbuilt_zones_loaded", 1);
+    }
     if p.name == "America/New_York" && p.origin == "sys" {
         r.sample(json!({"zone": p.name, "pieces": p.model.pieces.len(), "recorded": p.model.n_recorded, "footer": p.model.footer, "probes": n}));
     }
     n
 }
 
+/// Does the data record a transition outside jiff's timestamp range with a
+/// type that differs from its neighbour within the range? (jiff clamps such
+/// instants to Timestamp::MIN/MAX.)
+fn has_out_of_range_transition(z: &rtz::Zone) -> bool {
+    z.pieces.iter().skip(1).any(|p| p.recorded && p.start != i64::MIN && (p.start < zones::TS_MIN_SEC || p.start > zones::TS_MAX_SEC))
+}
+
 /// Input-derived failure class.
-fn classify(z: &rtz::Zone, t_ns: i128, k: usize, near: bool) -> String {
-    let _ = near;
-    // inside the window between a rule-generated transition's exact instant and
-    // the boundary of the rule's own (UTC) year, when the two differ (F7)
-    let _ = k;
+fn classify(z: &rtz::Zone, t_ns: i128, out_of_range_transition: bool, tzif: bool) -> String {
+    // exactly between a rule-generated transition's exact instant and the
+    // boundary of the rule's own (UTC) year, when the two differ (F7)
+    if hb::f7_utc(z, t_ns, tzif) {
+        return format!("value:{}", hb::F7);
+    }
     let sec = t_ns.div_euclid(NS) as i64;
-    let i = z.piece_index_at(sec);
-    let lo = i.saturating_sub(3);
-    let hi = (i + 3).min(z.pieces.len() - 1);
-    for j in lo..=hi {
-        let p = &z.pieces[j];
-        if p.crosses_year {
-            let y0 = refmodel::cal::days_from_civil(p.rule_year, 1, 1) * 86400;
-            let y1 = refmodel::cal::days_from_civil(p.rule_year + 1, 1, 1) * 86400;
-            let (a, b) = if p.start < y0 { (p.start, y0) } else { (y1 - 1, p.start) };
-            if sec >= a - 1 && sec <= b + 1 {
-                return "value:posix-rule-transition-outside-its-utc-year".into();
+    if out_of_range_transition && (sec == zones::TS_MIN_SEC || sec == zones::TS_MAX_SEC) {
+        return "value:recorded-transition-outside-timestamp-range-clamped-onto-MIN-or-MAX".into();
+    }
+    "value".into()
+}
+
+/// Fixed-offset zones and UTC: the offset is the zone's whole content.
+fn fixed_offsets(r: &Report) {
+    let offs: [i32; 9] = [-93_599, -3600, -1, 0, 1, 19_800, 45_900, 86_400, 93_599];
+    let min_ns = Timestamp::MIN.as_nanosecond();
+    let max_ns = Timestamp::MAX.as_nanosecond();
+    let ts: [i128; 10] = [min_ns, min_ns + 1, -86_400 * NS - 1, -1_500_000_000, -1, 0, 1, 500_000_000, max_ns - 1, max_ns];
+    let mut n = 0;
+    let mut zonesv: Vec<(String, i32, TimeZone)> = vec![("UTC".into(), 0, TimeZone::UTC)];
+    for o in offs {
+        zonesv.push((format!("fixed({})", o), o, TimeZone::fixed(jiff::tz::Offset::from_seconds(o).unwrap())));
+    }
+    for (name, o, tz) in &zonesv {
+        for t in ts {
+            n += 1;
+            let tsv = Timestamp::from_nanosecond(t).unwrap();
+            let case = format!("{} t={}", name, vf::conv::fmt_ns(t));
+            match guard(|| {
+                let info = tz.to_offset_info(tsv);
+                let z = tsv.to_zoned(tz.clone());
+                (info.offset().seconds(), info.dst().is_dst(), tz.to_offset(tsv).seconds(), tz.to_datetime(tsv), z.offset().seconds(), z.datetime())
+            }) {
+                Err(pn) => r.viol("fixed", &format!("TimeZone::fixed/to_offset_info/{}", panic_sig(&pn)), case, pn),
+                Ok((off, dst, off2, dt, zoff, zdt)) => {
+                    let civil = t + *o as i128 * NS;
+                    if off != *o || dst || off2 != *o || zoff != *o || vf::conv::dt_civil_ns(dt) != civil || vf::conv::dt_civil_ns(zdt) != civil {
+                        r.viol("fixed", "TimeZone::fixed/to_offset_info/value", case, format!("jiff ({}, dst={}, {}, {}, {}, {}) fixed offset {}", off, dst, off2, dt, zoff, zdt, o));
+                    }
+                }
             }
         }
     }
-    "value".into()
+    r.count("fixed_offset_probes", n);
+    r.add_transitions(n);
+    r.add_validated(n);
+}
+
+/// `Timestamp::in_tz(name)`: the database route, on a representative set of
+/// probes per installed zone (first and last two recorded transitions, first
+/// two and last rule-generated ones, the extremes). The zone the database
+/// hands out must behave like the installed file of that name or like the
+/// bundled copy (which of the two the database prefers is configuration, and
+/// their equivalence is C18).
+fn db_route(r: &Report) {
+    let sys = zones::sys(true);
+    let zs: Vec<&ZoneSrc> = sys.iter().filter(|z| !z.name.starts_with("right/") && !z.name.starts_with("posix/")).collect();
+    let n_zones = AtomicU64::new(0);
+    let n_unres = AtomicU64::new(0);
+    let n_probes = AtomicU64::new(0);
+    zs.par_iter().for_each(|z| {
+        let Ok(m_sys) = rtz::zone_from_tzif(&z.bytes) else { return };
+        let m_bun = jiff_tzdb::get(&z.name).and_then(|(_, b)| rtz::zone_from_tzif(b).ok());
+        if guard(|| jiff::tz::db().get(&z.name).is_ok()) != Ok(true) {
+            n_unres.fetch_add(1, Ordering::Relaxed);
+            return;
+        }
+        n_zones.fetch_add(1, Ordering::Relaxed);
+        let all = zones::probe_pieces(&m_sys, &|_| true);
+        let rec: Vec<usize> = all.iter().copied().filter(|&k| m_sys.pieces[k].recorded).collect();
+        let rule: Vec<usize> = all.iter().copied().filter(|&k| !m_sys.pieces[k].recorded).collect();
+        let mut ks: Vec<usize> = vec![];
+        ks.extend(rec.iter().take(1));
+        ks.extend(rec.iter().rev().take(2));
+        ks.extend(rule.iter().take(2));
+        ks.extend(rule.iter().rev().take(1));
+        let mut ts: Vec<i128> = vec![Timestamp::MIN.as_nanosecond(), Timestamp::MAX.as_nanosecond(), 0, -1];
+        for k in ks {
+            ts.extend(zones::instants_around(m_sys.pieces[k].start));
+        }
+        for t in ts {
+            if t < Timestamp::MIN.as_nanosecond() || t > Timestamp::MAX.as_nanosecond() {
+                continue;
+            }
+            n_probes.fetch_add(1, Ordering::Relaxed);
+            let tsv = Timestamp::from_nanosecond(t).unwrap();
+            let case = format!("sys:{} t={}", z.name, vf::conv::fmt_ns(t));
+            match guard(|| tsv.in_tz(&z.name).map(|zd| (zd.offset().seconds(), zd.datetime(), zd.timestamp()))) {
+                Err(pn) => r.viol("db-route", &format!("Timestamp::in_tz/{}", panic_sig(&pn)), case, pn),
+                Ok(Err(e)) => r.viol("db-route", "Timestamp::in_tz/error-for-a-name-the-database-resolves", case, e.to_string()),
+                Ok(Ok((off, dt, zts))) => {
+                    let sec = t.div_euclid(NS) as i64;
+                    let w1 = m_sys.utoff_at(sec);
+                    let w2 = m_bun.as_ref().map(|m| m.utoff_at(sec));
+                    let ok_off = off == w1 || Some(off) == w2;
+                    if !ok_off || vf::conv::dt_civil_ns(dt) != t + off as i128 * NS || zts != tsv {
+                        let class = if hb::f7_utc(&m_sys, t, true) { format!(":{}", hb::F7) } else { String::new() };
+                        r.viol(
+                            "db-route",
+                            &format!("Timestamp::in_tz/offset-or-datetime{}", class),
+                            case,
+                            format!("jiff ({}, {}, {}) model installed {} bundled {:?}", off, dt, zts, w1, w2),
+                        );
+                    }
+                }
+            }
+        }
+    });
+    r.count("db_route_zones", n_zones.load(Ordering::Relaxed));
+    r.count("db_route_names_not_resolved", n_unres.load(Ordering::Relaxed));
+    r.count("db_route_probes", n_probes.load(Ordering::Relaxed));
+    r.add_transitions(n_probes.load(Ordering::Relaxed));
+    r.add_validated(n_probes.load(Ordering::Relaxed));
 }
 
 /// Bind R-tz to a third implementation: glibc's reader via `zdump -V`.
